@@ -53,6 +53,10 @@ add("C11", "exploration",
     "f64 reference implementations with derived rounding bounds (not tuned constants): FirFilter block (taps 1..200, decimation 1..8, random/impulse/step/sinusoid inputs, one-shot and drip-fed) = sliding dot product with kept decimation phase, exact output count; FftFilter and FftFilterFloat = linear convolution with zero pre-history and FFT out[n] = FIR out[n-(ntaps-1)]; Fir::filter_float for every length 0..70 (all remainders mod 8) in the scalar, AVX (+avx,+sse3) and std::simd builds, the AVX kernel additionally under AddressSanitizer and Miri (thorough); SinglePoleIirFilter, IirFilter (fill, clamped), FastFM bit-exact against their recurrences; Hilbert (real part = input delayed by (ntaps+1)/2 exactly, imaginary part = dot product with fir::hilbert taps, taps antisymmetric and zero at even offsets, envelope of an in-band tone); QuadratureDemod = gain*arg(s*conj(s_prev)) and tone -> 2*pi*f; low_pass/low_pass_complex symmetric with unit DC gain for every WindowType.",
     "Bounds: dot products 2*n*u*sum|a_i*b_i|, FFT convolution 32*u*log2(N)*|x over this and the previous block|*|h| (u=2^-24). The evidence reports max observed error / bound per kernel. FFTW engine not built in this sandbox.",
     "runtime monitoring: f64 reference oracle with derived error bounds across three kernel builds + ASan + Miri", "3/C11", "kernels")
+add("C13", "exploration",
+    "An independent transmitter model (flags, LSB-first bytes, bitwise CRC-16/X.25 with check value 0x906E, zero insertion) generates bit streams: noise preamble (re-drawn until the harness's own reference deframer finds nothing acceptable in it), 2+ flags, 1-8 frames with payload lengths 0,1,2, around min and max, and random, random and stuffing-heavy contents (0xFF/0x7E/0x3F runs), shared or separate flags; settings (min,max) incl. 0,1,2, checksum on/off, fix-bits on/off; delivered one-shot and under drip-feed chunking on a one-page stream. Oracle: exactly the frames with min <= L < max, once, in order (L = max either way). Corrupted part: every single-bit flip position of a framed packet and 300 (quick) / 2000 (thorough) sampled double flips per frame: no panic, every emitted packet is the original or justified by a CRC-valid raw frame found on the corrupted line by the reference deframer (one repaired bit away with fix-bits).",
+    "Flags sharing their boundary zero are not generated as separators; with min_size 0 and checksum off the zero-length idle fill between adjacent flags is within the configured bounds and ignored. The transmitter model and reference deframer are harness code checked against each other and the CRC check value.",
+    "runtime monitoring: independent transmitter model + reference deframer as oracle, exhaustive single-bit corruption sweep", "3/C13", "hdlc")
 add("C12", "exploration",
     "Inputs carry uniquely keyed tags (0-5 per sample, clustered at likely split points); under drip-feed schedules the multiset (key, value, absolute output index) seen at the output must equal the expected mapping: identity for one-to-one blocks (first input only for multi-input blocks), both outputs of Tee, +delay for Delay, index/decimation for FirFilter, minus skip for Skip, identity for Hilbert/FftFilter/FftFilterFloat; added tags of VectorSource, CorrelateAccessCodeTag, BurstTagger, VecToStream on exactly the specified samples.",
     "Blocks documented as dropping tags (RationalResampler, RtlSdrDecode, AU codec, ...) are not judged. Tags on samples that never reach the output (FIR history tail) are expected to be absent.",
@@ -65,6 +69,8 @@ ENGINES = [
          kind_free_text="random/walker/boundary operation histories on one stream vs an executable queue model"),
     dict(name="drip-feed", path="harness/src/drip.rs, duts.rs, blockprops.rs", serves_properties=["C08", "C09", "C10", "C12"],
          kind_free_text="harness plays both neighbours of one block on small streams; per-call observation through hook events"),
+    dict(name="hdlc", path="harness/src/hdlc.rs, hdlcprop.rs", serves_properties=["C13"],
+         kind_free_text="HDLC transmitter model, reference deframer, clean and corrupted stream oracles"),
     dict(name="kernels", path="harness/src/kernels.rs", serves_properties=["C11"],
          kind_free_text="f64 reference implementations and derived rounding bounds for the DSP kernels; scalar/AVX/simd/ASan/Miri builds"),
     dict(name="spsc-stress", path="harness/src/spsc.rs", serves_properties=["C03"],
